@@ -1,1 +1,1147 @@
-// harness module for C16 (not written yet)
+// Verification harness for C16 (only configured / dynamically permitted neighbours get a
+// session, set up right).  Child of `crate::event::verif_event`, so it reaches the private
+// `accept_connection`, `Global`, `Peer`, `PeerSession`, `PeerParams`, `GrpcService` items.
+//
+// Case kinds (syntax: lean/Rbgp/Accept/Codec.lean):
+//   (neg (caps..) (caps..) (sm (f n)..))      PeerCodec::negotiate both ways, PeerFsm effective
+//                                             send-max both ways, negotiate_gr / negotiate_llgr both ways
+//   (contains (net xbytes mask) (ip xbytes))  IpNet::contains
+//   (hist global groups peers ops)            add_peer/apply_peer_group, accept_connection over real
+//                                             loopback sockets, PeerSession::run, the gRPC handlers
+#![allow(dead_code, unused_imports, clippy::all)]
+
+use super::super::*;
+
+#[path = "/verif/harness/common/sexp.rs"]
+mod sexp;
+use sexp::Term;
+
+use crate::fsm::{Input as FsmInput, Output as FsmOutput, PeerFsm, PeerFsmOutput, Role};
+use std::net::{IpAddr, Ipv4Addr, Ipv6Addr, SocketAddr};
+use std::str::FromStr;
+
+// ------------------------------------------------------------------ families / capabilities
+
+fn fam_raw(f: Family) -> u32 {
+    ((f.afi() as u32) << 16) | f.safi() as u32
+}
+fn fam_t(f: Family) -> Term {
+    Term::nat(fam_raw(f))
+}
+fn fam_of(t: &Term) -> Option<Family> {
+    let n = t.as_u64()?;
+    if n >= (1u64 << 32) || (n & 0xff00) != 0 {
+        return None;
+    }
+    Some(Family::new((n >> 16) as u16, (n & 0xff) as u8))
+}
+fn u_of(t: &Term, max: u64) -> Option<u64> {
+    let n = t.as_u64()?;
+    if n > max { None } else { Some(n) }
+}
+
+fn cap_of(t: &Term) -> Option<packet::Capability> {
+    use packet::Capability as C;
+    match t.head()? {
+        "rr" if t.as_atom().is_some() => Some(C::RouteRefresh),
+        "extmsg" if t.as_atom().is_some() => Some(C::ExtendedMessage),
+        "err" if t.as_atom().is_some() => Some(C::EnhancedRouteRefresh),
+        "fqdn" if t.as_atom().is_some() => Some(C::Fqdn {
+            hostname: "h".into(),
+            domain: "d".into(),
+        }),
+        "mp" => match t.tagged("mp")? {
+            [f] => Some(C::MultiProtocol(fam_of(f)?)),
+            _ => None,
+        },
+        "as4" => match t.tagged("as4")? {
+            [n] => Some(C::FourOctetAsNumber(u_of(n, u32::MAX as u64)? as u32)),
+            _ => None,
+        },
+        "enh" => {
+            let mut v = Vec::new();
+            for e in t.tagged("enh")? {
+                match e.as_list()? {
+                    [f, a] => v.push((fam_of(f)?, u_of(a, 65535)? as u16)),
+                    _ => return None,
+                }
+            }
+            Some(C::ExtendedNexthop(v))
+        }
+        "addpath" => {
+            let mut v = Vec::new();
+            for e in t.tagged("addpath")? {
+                match e.as_list()? {
+                    [f, m] => v.push((fam_of(f)?, u_of(m, 255)? as u8)),
+                    _ => return None,
+                }
+            }
+            Some(C::AddPath(v))
+        }
+        "gr" => match t.tagged("gr")? {
+            [fl, tm, fams] => {
+                let mut v = Vec::new();
+                for e in fams.as_list()? {
+                    match e.as_list()? {
+                        [f, x] => v.push((fam_of(f)?, u_of(x, 255)? as u8)),
+                        _ => return None,
+                    }
+                }
+                Some(C::GracefulRestart {
+                    flags: u_of(fl, 255)? as u8,
+                    restart_time: u_of(tm, 65535)? as u16,
+                    families: v,
+                })
+            }
+            _ => None,
+        },
+        "llgr" => {
+            let mut v = Vec::new();
+            for e in t.tagged("llgr")? {
+                match e.as_list()? {
+                    [f, x, tm] => v.push((fam_of(f)?, u_of(x, 255)? as u8, u_of(tm, u32::MAX as u64)? as u32)),
+                    _ => return None,
+                }
+            }
+            Some(C::LongLivedGracefulRestart(v))
+        }
+        "unk" => match t.tagged("unk")? {
+            [c, b] => Some(C::Unknown {
+                code: u_of(c, 255)? as u8,
+                bin: b.as_bytes()?,
+            }),
+            _ => None,
+        },
+        _ => None,
+    }
+}
+
+fn caps_of(t: &Term) -> Option<Vec<packet::Capability>> {
+    t.as_list()?.iter().map(cap_of).collect()
+}
+
+fn cap_t(c: &packet::Capability) -> Term {
+    use packet::Capability as C;
+    match c {
+        C::MultiProtocol(f) => Term::tag("mp", vec![fam_t(*f)]),
+        C::RouteRefresh => Term::atom("rr"),
+        C::ExtendedNexthop(v) => Term::tag(
+            "enh",
+            v.iter().map(|(f, a)| Term::list(vec![fam_t(*f), Term::nat(*a)])).collect(),
+        ),
+        C::ExtendedMessage => Term::atom("extmsg"),
+        C::GracefulRestart {
+            flags,
+            restart_time,
+            families,
+        } => Term::tag(
+            "gr",
+            vec![
+                Term::nat(*flags),
+                Term::nat(*restart_time),
+                Term::list(
+                    families
+                        .iter()
+                        .map(|(f, x)| Term::list(vec![fam_t(*f), Term::nat(*x)]))
+                        .collect(),
+                ),
+            ],
+        ),
+        C::FourOctetAsNumber(n) => Term::tag("as4", vec![Term::nat(*n)]),
+        C::AddPath(v) => Term::tag(
+            "addpath",
+            v.iter().map(|(f, m)| Term::list(vec![fam_t(*f), Term::nat(*m)])).collect(),
+        ),
+        C::EnhancedRouteRefresh => Term::atom("err"),
+        C::LongLivedGracefulRestart(v) => Term::tag(
+            "llgr",
+            v.iter()
+                .map(|(f, x, t)| Term::list(vec![fam_t(*f), Term::nat(*x), Term::nat(*t)]))
+                .collect(),
+        ),
+        C::Fqdn { .. } => Term::atom("fqdn"),
+        C::Unknown { code, bin } => Term::tag("unk", vec![Term::nat(*code), Term::bytes(bin)]),
+    }
+}
+
+/// Canonical form of a *locally built* capability list: `build_local_cap` iterates a hash map,
+/// so MultiProtocol entries and the tuples inside AddPath / ExtendedNexthop come in hash order.
+/// Sort MP entries by family (keeping them where the first MP entry was), sort the tuples.
+fn canon_caps(caps: &[packet::Capability]) -> Term {
+    use packet::Capability as C;
+    let mut mps: Vec<u32> = caps
+        .iter()
+        .filter_map(|c| if let C::MultiProtocol(f) = c { Some(fam_raw(*f)) } else { None })
+        .collect();
+    mps.sort();
+    let mut out = Vec::new();
+    let mut mp_done = false;
+    for c in caps {
+        match c {
+            C::MultiProtocol(_) => {
+                if !mp_done {
+                    mp_done = true;
+                    for f in &mps {
+                        out.push(Term::tag("mp", vec![Term::nat(*f)]));
+                    }
+                }
+            }
+            C::AddPath(v) => {
+                let mut v = v.clone();
+                v.sort_by_key(|(f, m)| (fam_raw(*f), *m));
+                out.push(cap_t(&C::AddPath(v)));
+            }
+            C::ExtendedNexthop(v) => {
+                let mut v = v.clone();
+                v.sort_by_key(|(f, a)| (fam_raw(*f), *a));
+                out.push(cap_t(&C::ExtendedNexthop(v)));
+            }
+            other => out.push(cap_t(other)),
+        }
+    }
+    Term::list(out)
+}
+
+// ------------------------------------------------------------------ neg
+
+fn codec_t(c: &mut bgp::PeerCodec) -> Term {
+    let mut fams: Vec<(u32, bool, bool)> = c
+        .families_iter()
+        .collect::<Vec<_>>()
+        .into_iter()
+        .map(|f| {
+            let s = c.family_state(f).unwrap();
+            (fam_raw(f), s.addpath_rx, s.addpath_tx)
+        })
+        .collect();
+    fams.sort();
+    // extended next hop is a private flag: observe it through the encoder (an IPv4 unicast
+    // withdrawal goes into MP_UNREACH iff the flag is set, otherwise into the withdrawn field).
+    let msg = bgp::Message::Update(bgp::Update::Unreach {
+        family: Family::IPV4,
+        entries: vec![packet::PathNlri::new(packet::Nlri::V4(packet::bgp::Ipv4Net {
+            addr: Ipv4Addr::new(10, 0, 0, 0),
+            mask: 8,
+        }))],
+    });
+    let mut buf = bytes::BytesMut::with_capacity(4096);
+    let enh = match c.encode_to(&msg, &mut buf) {
+        Ok(_) if buf.len() >= 21 => Term::boolean(buf[19] == 0 && buf[20] == 0),
+        _ => Term::atom("encode-failed"),
+    };
+    Term::tag(
+        "codec",
+        vec![
+            Term::list(
+                fams.into_iter()
+                    .map(|(f, rx, tx)| Term::list(vec![Term::nat(f), Term::boolean(rx), Term::boolean(tx)]))
+                    .collect(),
+            ),
+            Term::boolean(c.extended_length),
+            enh,
+            Term::boolean(!c.two_byte_as),
+        ],
+    )
+}
+
+fn sm_of(t: &Term) -> Option<FnvHashMap<Family, usize>> {
+    let mut h = FnvHashMap::default();
+    for e in t.tagged("sm")? {
+        match e.as_list()? {
+            [f, n] => {
+                h.insert(fam_of(f)?, u_of(n, 1 << 20)? as usize);
+            }
+            _ => return None,
+        }
+    }
+    Some(h)
+}
+
+/// Drive the real PeerFsm: connect, remote OPEN carrying `remote`, KEEPALIVE.
+/// Returns (codec handed out by SessionNegotiated, effective_max of SessionEstablished).
+fn fsm_establish(
+    local: &[packet::Capability],
+    remote: &[packet::Capability],
+    sm: &FnvHashMap<Family, usize>,
+) -> (Option<bgp::PeerCodec>, Option<Vec<(u32, usize)>>) {
+    let mut fsm = PeerFsm::new(0x0101_0101, 65001, local.to_vec(), 90, 0, sm.clone());
+    let _ = fsm.process(Role::Passive, FsmInput::Connected(false));
+    let open = bgp::Message::Open(bgp::Open {
+        as_number: 65002,
+        holdtime: HoldTime::new(90).unwrap(),
+        router_id: 0x0202_0202,
+        capability: remote.to_vec(),
+    });
+    let mut codec = None;
+    for o in fsm.process(Role::Passive, FsmInput::MessageReceived(open)) {
+        if let PeerFsmOutput::Connection(_, FsmOutput::SessionNegotiated(c)) = o {
+            codec = Some(c);
+        }
+    }
+    let mut emax = None;
+    for o in fsm.process(Role::Passive, FsmInput::MessageReceived(bgp::Message::Keepalive)) {
+        if let PeerFsmOutput::Connection(_, FsmOutput::SessionEstablished { effective_max, .. }) = o {
+            let mut v: Vec<(u32, usize)> = effective_max.iter().map(|(f, n)| (fam_raw(*f), *n)).collect();
+            v.sort();
+            emax = Some(v);
+        }
+    }
+    (codec, emax)
+}
+
+fn emax_t(e: Option<Vec<(u32, usize)>>) -> Term {
+    match e {
+        None => Term::atom("not-established"),
+        Some(v) => Term::list(
+            v.into_iter()
+                .map(|(f, n)| Term::list(vec![Term::nat(f), Term::nat(n as u64)]))
+                .collect(),
+        ),
+    }
+}
+
+fn gr_t(g: Option<NegotiatedGr>) -> Term {
+    match g {
+        None => Term::atom("none"),
+        Some(g) => Term::tag(
+            "gr",
+            vec![
+                Term::list(g.families.iter().map(|f| fam_t(*f)).collect()),
+                Term::nat(g.restart_time.as_secs()),
+                Term::boolean(g.notification_enabled),
+            ],
+        ),
+    }
+}
+fn llgr_t(g: Option<NegotiatedLlgr>) -> Term {
+    match g {
+        None => Term::atom("none"),
+        Some(g) => Term::tag(
+            "llgr",
+            g.families
+                .iter()
+                .map(|(f, d)| Term::list(vec![fam_t(*f), Term::nat(d.as_secs())]))
+                .collect(),
+        ),
+    }
+}
+
+fn make_tables() -> TableHandle {
+    Arc::new(TableManager::new(1))
+}
+
+fn empty_context() -> Arc<std::sync::Mutex<PeerContext>> {
+    let fsm = PeerFsm::new(1, 1, vec![], 90, 0, FnvHashMap::default());
+    Arc::new(std::sync::Mutex::new(PeerContext {
+        conn_arbiter: Arc::new(std::sync::Mutex::new(ConnArbiter::new(fsm))),
+        active_connect_cancel_tx: None,
+        active_connect_join_handle: None,
+        gr_state: crate::gr::GrState::new(),
+        gr_restart_timer: None,
+        llgr_family_timers: FnvHashMap::default(),
+        rtc_state: crate::rtc::RtcState::new(),
+        rtc_eor_timer: None,
+    }))
+}
+
+fn run_neg(rt: &tokio::runtime::Runtime, l: &Term, r: &Term, sm: &Term) -> Option<String> {
+    let local = caps_of(l)?;
+    let remote = caps_of(r)?;
+    let sm = sm_of(sm)?;
+    // (1) the public packet API, both directions
+    let mut lr = bgp::PeerCodec::negotiate(&local, &remote);
+    let mut rl = bgp::PeerCodec::negotiate(&remote, &local);
+    // (2) the FSM, both directions (same configured send-max on both ends)
+    let (fc_lr, em_lr) = fsm_establish(&local, &remote, &sm);
+    let (fc_rl, em_rl) = fsm_establish(&remote, &local, &sm);
+    // the codec the FSM hands to the session must be the one the packet API computes
+    let same = |a: &mut bgp::PeerCodec, b: Option<bgp::PeerCodec>| match b {
+        Some(mut b) => codec_t(a).to_string() == codec_t(&mut b).to_string(),
+        None => false,
+    };
+    let fsm_same = same(&mut lr, fc_lr) && same(&mut rl, fc_rl);
+    // (3) GR / LLGR negotiation of the session, both directions
+    let (gl, gr_, ll, lr_) = rt.block_on(async {
+        let tables = make_tables();
+        let addr = IpAddr::V4(Ipv4Addr::new(127, 0, 0, 9));
+        let mut a = PeerSession::new_for_test(addr, empty_context(), tables.clone());
+        a.local_cap = local.clone();
+        let mut b = PeerSession::new_for_test(addr, empty_context(), tables);
+        b.local_cap = remote.clone();
+        (
+            a.negotiate_gr(&remote),
+            b.negotiate_gr(&local),
+            a.negotiate_llgr(&remote),
+            b.negotiate_llgr(&local),
+        )
+    });
+    Some(
+        Term::tag(
+            "neg",
+            vec![
+                codec_t(&mut lr),
+                codec_t(&mut rl),
+                Term::boolean(fsm_same),
+                emax_t(em_lr),
+                emax_t(em_rl),
+                gr_t(gl),
+                gr_t(gr_),
+                llgr_t(ll),
+                llgr_t(lr_),
+            ],
+        )
+        .to_string(),
+    )
+}
+
+// ------------------------------------------------------------------ contains
+
+fn ip_of(t: &Term) -> Option<IpAddr> {
+    match t.tagged("ip")? {
+        [b] => {
+            let b = b.as_bytes()?;
+            match b.len() {
+                4 => Some(IpAddr::V4(Ipv4Addr::new(b[0], b[1], b[2], b[3]))),
+                16 => {
+                    let mut a = [0u8; 16];
+                    a.copy_from_slice(&b);
+                    Some(IpAddr::V6(Ipv6Addr::from(a)))
+                }
+                _ => None,
+            }
+        }
+        _ => None,
+    }
+}
+fn ip_t(a: &IpAddr) -> Term {
+    match a {
+        IpAddr::V4(a) => Term::tag("ip", vec![Term::bytes(&a.octets())]),
+        IpAddr::V6(a) => Term::tag("ip", vec![Term::bytes(&a.octets())]),
+    }
+}
+fn ip_key(a: &IpAddr) -> Vec<u8> {
+    match a {
+        IpAddr::V4(a) => a.octets().to_vec(),
+        IpAddr::V6(a) => a.octets().to_vec(),
+    }
+}
+fn net_of(t: &Term) -> Option<packet::IpNet> {
+    match t.tagged("net")? {
+        [b, m] => {
+            let a = ip_of(&Term::tag("ip", vec![b.clone()]))?;
+            Some(packet::IpNet::new(a, u_of(m, 255)? as u8))
+        }
+        _ => None,
+    }
+}
+
+fn run_contains(n: &Term, a: &Term) -> Option<String> {
+    let net = net_of(n)?;
+    let addr = ip_of(a)?;
+    Some(Term::tag("ok", vec![Term::boolean(net.contains(&addr))]).to_string())
+}
+
+// ------------------------------------------------------------------ hist: configuration
+
+fn fams_of(t: &Term, tag: &str) -> Option<FnvHashMap<Family, u8>> {
+    let mut h = FnvHashMap::default();
+    for e in t.tagged(tag)? {
+        match e.as_list()? {
+            [f, m] => {
+                h.insert(fam_of(f)?, u_of(m, 255)? as u8);
+            }
+            _ => return None,
+        }
+    }
+    Some(h)
+}
+fn pl_of(t: &Term) -> Option<FnvHashMap<Family, u32>> {
+    let mut h = FnvHashMap::default();
+    for e in t.tagged("pl")? {
+        match e.as_list()? {
+            [f, m] => {
+                h.insert(fam_of(f)?, u_of(m, u32::MAX as u64)? as u32);
+            }
+            _ => return None,
+        }
+    }
+    Some(h)
+}
+fn opt_of<'a>(t: &'a Term) -> Option<Option<&'a Term>> {
+    if t.as_atom() == Some("none") {
+        return Some(None);
+    }
+    match t.tagged("some")? {
+        [x] => Some(Some(x)),
+        _ => None,
+    }
+}
+fn gr_cfg_of(t: &Term) -> Option<Option<GrPeerConfig>> {
+    match opt_of(t)? {
+        None => Some(None),
+        Some(x) => match x.as_list()? {
+            [tm, n, fams] => Some(Some(GrPeerConfig {
+                restart_time: u_of(tm, 65535)? as u16,
+                notification_enabled: n.as_bool()?,
+                families: fams.as_list()?.iter().map(fam_of).collect::<Option<Vec<_>>>()?,
+            })),
+            _ => None,
+        },
+    }
+}
+fn llgr_cfg_of(t: &Term) -> Option<Option<LlgrPeerConfig>> {
+    match opt_of(t)? {
+        None => Some(None),
+        Some(x) => {
+            let mut v = Vec::new();
+            for e in x.as_list()? {
+                match e.as_list()? {
+                    [f, tm] => v.push((fam_of(f)?, u_of(tm, u32::MAX as u64)? as u32)),
+                    _ => return None,
+                }
+            }
+            Some(Some(LlgrPeerConfig { families: v }))
+        }
+    }
+}
+fn cluster_of(t: &Term) -> Option<Option<Ipv4Addr>> {
+    match opt_of(t)? {
+        None => Some(None),
+        Some(x) => Some(Some(Ipv4Addr::from(u_of(x, u32::MAX as u64)? as u32))),
+    }
+}
+
+struct GroupCase {
+    name: String,
+    group: PeerGroup,
+}
+
+/// (group name as local_asn hold passive rs rrclient cluster (fams..) (sm..) gr llgr (nets ..))
+fn group_of(t: &Term) -> Option<GroupCase> {
+    match t.tagged("group")? {
+        [name, asn, lasn, hold, passive, rs, rrc, cluster, fams, sm, gr, llgr, nets] => {
+            let mut dynamic_peers = Vec::new();
+            for n in nets.tagged("nets")? {
+                // histories use well-formed prefixes only (what IpNet::from_str lets through);
+                // out-of-range masks are exercised by the `contains` cases
+                let [b, m] = n.tagged("net")? else { return None };
+                if m.as_u64()? > 8 * b.as_bytes()?.len() as u64 {
+                    return None;
+                }
+                dynamic_peers.push(DynamicPeer { prefix: net_of(n)? });
+            }
+            Some(GroupCase {
+                name: name.as_atom()?.to_string(),
+                group: PeerGroup {
+                    as_number: u_of(asn, u32::MAX as u64)? as u32,
+                    dynamic_peers,
+                    route_server_client: rs.as_bool()?,
+                    holdtime: match opt_of(hold)? {
+                        None => None,
+                        Some(h) => Some(u_of(h, 65535)?),
+                    },
+                    local_asn: u_of(lasn, u32::MAX as u64)? as u32,
+                    passive: passive.as_bool()?,
+                    route_reflector: RouteReflectorConfig {
+                        route_reflector_client: rrc.as_bool()?,
+                        route_reflector_cluster_id: cluster_of(cluster)?,
+                    },
+                    multihop_ttl: None,
+                    ttl_security: None,
+                    auth_password: None,
+                    connect_retry_time: None,
+                    families: fams_of(fams, "fams")?,
+                    send_max: sm_of(sm)?,
+                    graceful_restart: gr_cfg_of(gr)?,
+                    llgr: llgr_cfg_of(llgr)?,
+                },
+            })
+        }
+        _ => None,
+    }
+}
+
+struct PeerCase {
+    params: PeerParams,
+    group: Option<String>,
+}
+
+/// (peer ip expected local_asn hold passive rs rrclient cluster admin_down (fams..) (sm..) (pl..) gr llgr pol group)
+fn peer_of(t: &Term) -> Option<PeerCase> {
+    match t.tagged("peer")? {
+        [ip, exp, lasn, hold, passive, rs, rrc, cluster, down, fams, sm, pl, gr, llgr, pol, group] => {
+            let export_policy = match opt_of(pol)? {
+                None => None,
+                Some(d) => Some((
+                    match d.as_atom()? {
+                        "accept" => table::Disposition::Accept,
+                        "reject" => table::Disposition::Reject,
+                        _ => return None,
+                    },
+                    Vec::new(),
+                )),
+            };
+            Some(PeerCase {
+                params: PeerParams {
+                    remote_addr: ip_of(ip)?,
+                    // nothing listens there: the active-connect retry loop (spawned by the
+                    // real code after a disconnect) only ever gets ECONNREFUSED
+                    remote_port: 1,
+                    expected_remote_asn: u_of(exp, u32::MAX as u64)? as u32,
+                    local_asn: u_of(lasn, u32::MAX as u64)? as u32,
+                    passive: passive.as_bool()?,
+                    rs_client: rs.as_bool()?,
+                    route_reflector: RouteReflectorConfig {
+                        route_reflector_client: rrc.as_bool()?,
+                        route_reflector_cluster_id: cluster_of(cluster)?,
+                    },
+                    delete_on_disconnected: false,
+                    admin_down: down.as_bool()?,
+                    state: SessionState::Idle,
+                    holdtime: u_of(hold, 65535)?,
+                    connect_retry_time: PeerParams::DEFAULT_CONNECT_RETRY_TIME,
+                    multihop_ttl: None,
+                    ttl_security: None,
+                    password: None,
+                    families: fams_of(fams, "fams")?,
+                    send_max: sm_of(sm)?,
+                    prefix_limits: pl_of(pl)?,
+                    graceful_restart: gr_cfg_of(gr)?,
+                    llgr: llgr_cfg_of(llgr)?,
+                    bfd_config: None,
+                    neighbor_interface: None,
+                    bind_interface: None,
+                    export_policy,
+                },
+                group: match opt_of(group)? {
+                    None => None,
+                    Some(g) => Some(g.as_atom()?.to_string()),
+                },
+            })
+        }
+        _ => None,
+    }
+}
+
+fn role_t(r: PeerRole) -> Term {
+    Term::atom(match r {
+        PeerRole::Ebgp => "ebgp",
+        PeerRole::Ibgp => "ibgp",
+        PeerRole::IbgpRrClient => "rr-client",
+        PeerRole::RsClient => "rs-client",
+        PeerRole::ConfedEbgp => "confed",
+    })
+}
+
+fn sorted_pairs<V: Copy + Into<u128>>(h: impl Iterator<Item = (Family, V)>) -> Term {
+    let mut v: Vec<(u32, u128)> = h.map(|(f, n)| (fam_raw(f), n.into())).collect();
+    v.sort();
+    Term::list(
+        v.into_iter()
+            .map(|(f, n)| Term::list(vec![Term::nat(f), Term::nat(n)]))
+            .collect(),
+    )
+}
+
+fn cluster_t(c: Option<Ipv4Addr>) -> Term {
+    Term::opt(c.map(|a| Term::nat(u32::from(a))))
+}
+
+/// Resolved configuration of a neighbour as stored in `Global.peers`.
+fn peer_cfg_t(p: &Peer, g: &Global) -> Term {
+    let send_max = {
+        let ctx = p.context.lock().unwrap();
+        let arb = ctx.conn_arbiter.lock().unwrap();
+        sorted_pairs(arb.fsm().configured_send_max().iter().map(|(f, n)| (*f, *n as u64)))
+    };
+    let pol = match p.state.export_policy.load_full() {
+        None => Term::atom("none"),
+        Some(a) => Term::tag(
+            "some",
+            vec![Term::atom(match a.disposition {
+                table::Disposition::Accept => "accept",
+                table::Disposition::Reject => "reject",
+                _ => "other",
+            })],
+        ),
+    };
+    Term::tag(
+        "cfg",
+        vec![
+            Term::nat(p.config.expected_remote_asn),
+            Term::nat(p.config.local_asn),
+            Term::nat(p.config.holdtime as u128),
+            Term::boolean(p.config.passive),
+            Term::boolean(p.config.route_server_client),
+            Term::boolean(p.config.route_reflector.route_reflector_client),
+            cluster_t(p.config.route_reflector.route_reflector_cluster_id),
+            Term::boolean(p.config.delete_on_disconnected),
+            canon_caps(&p.config.local_cap),
+            send_max,
+            sorted_pairs(p.config.prefix_limits.iter().map(|(f, n)| (*f, *n))),
+            pol,
+            role_t(p.peer_role(g)),
+        ],
+    )
+}
+
+fn snapshot(g: &Global) -> Term {
+    let mut v: Vec<(Vec<u8>, Term)> = g
+        .peers
+        .iter()
+        .map(|(a, p)| {
+            let (sa, sp) = {
+                let ctx = p.context.lock().unwrap();
+                let arb = ctx.conn_arbiter.lock().unwrap();
+                (arb.active_close_tx.is_some(), arb.passive_close_tx.is_some())
+            };
+            (
+                ip_key(a),
+                Term::list(vec![
+                    ip_t(a),
+                    Term::boolean(p.admin_down),
+                    Term::boolean(p.config.delete_on_disconnected),
+                    Term::boolean(sa),
+                    Term::boolean(sp),
+                ]),
+            )
+        })
+        .collect();
+    v.sort_by(|a, b| (a.0.len(), &a.0).cmp(&(b.0.len(), &b.0)));
+    Term::list(v.into_iter().map(|x| x.1).collect())
+}
+
+// ------------------------------------------------------------------ hist: sockets
+
+struct Net {
+    l4: tokio::net::TcpListener,
+    l6: Option<tokio::net::TcpListener>,
+}
+
+async fn pair_from(net: &Net, src: IpAddr) -> std::io::Result<(TcpStream, TcpStream)> {
+    let (sock, listener) = match src {
+        IpAddr::V4(_) => (tokio::net::TcpSocket::new_v4()?, &net.l4),
+        IpAddr::V6(_) => (
+            tokio::net::TcpSocket::new_v6()?,
+            net.l6.as_ref().ok_or_else(|| std::io::Error::other("no ::1"))?,
+        ),
+    };
+    sock.bind(SocketAddr::new(src, 0))?;
+    let laddr = listener.local_addr()?;
+    let (c, s) = tokio::join!(sock.connect(laddr), listener.accept());
+    let c = c?;
+    let (s, from) = s?;
+    if from.ip() != src {
+        return Err(std::io::Error::other("accepted a foreign connection"));
+    }
+    Ok((c, s))
+}
+
+/// What the remote end sees first on the connection.
+async fn read_first_message(client: &mut TcpStream) -> Term {
+    use tokio::io::AsyncReadExt;
+    let mut buf = bytes::BytesMut::with_capacity(4096);
+    let mut codec = bgp::PeerCodec::new();
+    loop {
+        match codec.try_parse(&mut buf) {
+            Ok(Some(p)) => {
+                return match bgp::validate_message(p, true) {
+                    Ok(it) => match it.into_iter().next() {
+                        Some(bgp::Message::Open(o)) => Term::tag(
+                            "open",
+                            vec![
+                                Term::nat(o.as_number),
+                                Term::nat(o.holdtime.seconds()),
+                                Term::nat(o.router_id),
+                                canon_caps(&o.capability),
+                            ],
+                        ),
+                        Some(bgp::Message::Notification(n)) => Term::tag(
+                            "notif",
+                            vec![Term::nat(n.notification_code()), Term::nat(n.notification_subcode())],
+                        ),
+                        Some(_) => Term::atom("other-message"),
+                        None => Term::atom("no-message"),
+                    },
+                    Err(_) => Term::atom("invalid-message"),
+                };
+            }
+            Ok(None) => {}
+            Err(_) => return Term::atom("unparsable"),
+        }
+        match tokio::time::timeout(Duration::from_secs(5), client.read_buf(&mut buf)).await {
+            Ok(Ok(0)) => return Term::tag("closed", vec![Term::nat(buf.len() as u64)]),
+            Ok(Ok(_)) => {}
+            Ok(Err(_)) => return Term::tag("closed", vec![Term::nat(buf.len() as u64)]),
+            Err(_) => return Term::atom("timeout"),
+        }
+    }
+}
+
+struct Live {
+    session: PeerSession,
+    client: TcpStream,
+}
+
+fn sess_t(s: &PeerSession) -> Term {
+    let mut pl: Vec<(u32, u32)> = s.prefix_counters.iter().map(|(f, (m, _))| (fam_raw(*f), *m)).collect();
+    pl.sort();
+    Term::tag(
+        "sess",
+        vec![
+            role_t(s.export_ctx.role),
+            Term::nat(s.export_ctx.local_asn),
+            canon_caps(&s.local_cap),
+            Term::list(
+                pl.into_iter()
+                    .map(|(f, m)| Term::list(vec![Term::nat(f), Term::nat(m)]))
+                    .collect(),
+            ),
+            cluster_t(s.cluster_id),
+            Term::nat(s.export_ctx.confederation_id),
+            Term::boolean(s.is_restarting),
+        ],
+    )
+}
+
+/// Names of the groups with a dynamic prefix containing `a` (sorted).
+fn matching_groups(g: &Global, a: &IpAddr) -> Vec<String> {
+    let mut v: Vec<String> = g
+        .peer_group
+        .iter()
+        .filter(|(_, pg)| pg.dynamic_peers.iter().any(|d| d.prefix.contains(a)))
+        .map(|(n, _)| n.clone())
+        .collect();
+    v.sort();
+    v
+}
+
+/// Harness glue for the ambiguous case (several groups match): is the neighbour that the real
+/// code created consistent with group `pg` (field by field, capabilities through the real
+/// `build_local_cap`)?
+fn consistent_with(p: &Peer, pg: &PeerGroup, g: &Global) -> bool {
+    let own = if pg.local_asn != 0 { pg.local_asn } else { g.asn };
+    let local_asn = match &g.confederation {
+        Some(c) if !c.members.contains(&pg.as_number) && pg.as_number != own => c.id,
+        _ => own,
+    };
+    let caps = PeerParams::build_local_cap(
+        p.config.remote_addr,
+        local_asn,
+        &pg.families,
+        pg.graceful_restart.as_ref(),
+        pg.llgr.as_ref(),
+    );
+    let sm_ok = {
+        let ctx = p.context.lock().unwrap();
+        let arb = ctx.conn_arbiter.lock().unwrap();
+        *arb.fsm().configured_send_max() == pg.send_max
+    };
+    p.config.expected_remote_asn == pg.as_number
+        && p.config.local_asn == local_asn
+        && p.config.holdtime == pg.holdtime.unwrap_or(PeerParams::DEFAULT_HOLD_TIME)
+        && p.config.route_server_client == pg.route_server_client
+        && p.config.route_reflector.route_reflector_client == pg.route_reflector.route_reflector_client
+        && p.config.route_reflector.route_reflector_cluster_id == pg.route_reflector.route_reflector_cluster_id
+        && p.config.passive == pg.passive
+        && canon_caps(&p.config.local_cap) == canon_caps(&caps)
+        && sm_ok
+        && p.config.prefix_limits.is_empty()
+}
+
+/// loopback source addresses that can be bound offline: 127.x.y.z (z not 0 / 255) and ::1
+fn loop_ip_of(t: &Term) -> Option<IpAddr> {
+    let a = ip_of(t)?;
+    let ok = match a {
+        IpAddr::V4(a) => {
+            let o = a.octets();
+            o[0] == 127 && o[3] != 0 && o[3] != 255
+        }
+        IpAddr::V6(a) => a == Ipv6Addr::LOCALHOST,
+    };
+    if ok { Some(a) } else { None }
+}
+
+fn role_of(t: &Term) -> Option<Role> {
+    match t.as_atom()? {
+        "A" => Some(Role::Active),
+        "P" => Some(Role::Passive),
+        _ => None,
+    }
+}
+
+async fn run_hist(gt: &Term, groups: &Term, peers: &Term, ops: &Term) -> Option<String> {
+    // ---- global
+    let (asn, rid, confed) = match gt.tagged("global")? {
+        [a, r, c] => (u_of(a, u32::MAX as u64)? as u32, u_of(r, u32::MAX as u64)? as u32, c),
+        _ => return None,
+    };
+    let confed = match opt_of(confed)? {
+        None => None,
+        Some(c) => match c.as_list()? {
+            [id, members] => Some(ConfederationConfig {
+                id: u_of(id, u32::MAX as u64)? as u32,
+                members: members
+                    .as_list()?
+                    .iter()
+                    .map(|m| u_of(m, u32::MAX as u64).map(|x| x as u32))
+                    .collect::<Option<FnvHashSet<u32>>>()?,
+            }),
+            _ => return None,
+        },
+    };
+    let groups: Vec<GroupCase> = groups.tagged("groups")?.iter().map(group_of).collect::<Option<_>>()?;
+    let peers: Vec<PeerCase> = peers.tagged("peers")?.iter().map(peer_of).collect::<Option<_>>()?;
+    let ops = ops.tagged("ops")?;
+    // validate ops before touching anything, so that an ill-formed case is (bad-case) on both sides
+    for o in ops {
+        match o.head()? {
+            "connect" => match o.tagged("connect")? {
+                [a, r] => {
+                    loop_ip_of(a)?;
+                    role_of(r)?;
+                }
+                _ => return None,
+            },
+            "disc" => match o.tagged("disc")? {
+                [s] => {
+                    s.as_u64()?;
+                }
+                _ => return None,
+            },
+            h @ ("enable" | "disable" | "delete" | "shutdown" | "reset") => match o.tagged(h)? {
+                [a] => {
+                    ip_of(a)?;
+                }
+                _ => return None,
+            },
+            _ => return None,
+        }
+    }
+
+    let (active_tx, _active_rx) = mpsc::unbounded_channel::<TcpStream>();
+    let (kernel_tx, _kernel_rx) = mpsc::unbounded_channel();
+    let (bfd_tx, _bfd_rx) = mpsc::unbounded_channel();
+    let mut g = Global::new(kernel_tx, bfd_tx);
+    g.asn = asn;
+    g.router_id = Ipv4Addr::from(rid);
+    g.confederation = confed;
+    for gc in groups {
+        g.peer_group.insert(gc.name, gc.group);
+    }
+    // ---- configured neighbours: the config-loading path (apply_peer_group, then add_peer)
+    let mut added = Vec::new();
+    for pc in peers {
+        let mut params = pc.params;
+        if let Some(pg) = pc.group.as_deref().and_then(|n| g.peer_group.get(n)) {
+            params.apply_peer_group(pg);
+        }
+        added.push(Term::boolean(g.add_peer(params, None).is_ok()));
+    }
+    let setup = {
+        let mut v: Vec<(Vec<u8>, Term)> = g
+            .peers
+            .iter()
+            .map(|(a, p)| (ip_key(a), Term::list(vec![ip_t(a), Term::boolean(p.admin_down), peer_cfg_t(p, &g)])))
+            .collect();
+        v.sort_by(|a, b| (a.0.len(), &a.0).cmp(&(b.0.len(), &b.0)));
+        Term::tag(
+            "setup",
+            vec![Term::list(added), Term::list(v.into_iter().map(|x| x.1).collect())],
+        )
+    };
+    let global: GlobalHandle = Arc::new(tokio::sync::RwLock::new(g));
+    let tables = make_tables();
+    let svc = GrpcService::new(
+        Arc::new(tokio::sync::Notify::new()),
+        active_tx.clone(),
+        global.clone(),
+        tables.clone(),
+    );
+    let net = Net {
+        l4: tokio::net::TcpListener::bind("127.0.0.1:0").await.ok()?,
+        l6: tokio::net::TcpListener::bind("[::1]:0").await.ok(),
+    };
+
+    let mut live: Vec<Option<Live>> = Vec::new();
+    let mut steps = Vec::new();
+    let mut aborted = false;
+    for o in ops {
+        if aborted {
+            steps.push(Term::list(vec![Term::atom("aborted"), Term::list(vec![])]));
+            continue;
+        }
+        let res = match o.head()? {
+            "connect" => {
+                let [a, r] = o.tagged("connect")? else { return None };
+                let addr = ip_of(a)?;
+                let role = role_of(r)?;
+                let (mut client, server) = match pair_from(&net, addr).await {
+                    Ok(p) => p,
+                    Err(_) => return Some("(harness-cannot-bind)".into()),
+                };
+                let (known, cands) = {
+                    let g = global.read().await;
+                    (g.peers.contains_key(&addr), matching_groups(&g, &addr))
+                };
+                match accept_connection(&global, &tables, server, role).await {
+                    None => {
+                        // the stream was dropped: the remote end must see EOF with nothing sent
+                        match read_first_message(&mut client).await {
+                            Term::List(l) if l.first().and_then(|x| x.as_atom()) == Some("closed") => {
+                                Term::tag("reject", vec![l[1].clone()])
+                            }
+                            other => Term::tag("reject-but", vec![other]),
+                        }
+                    }
+                    Some(session) => {
+                        let sid = live.len();
+                        let g = global.read().await;
+                        let res = if !known && cands.len() > 1 {
+                            aborted = true;
+                            let ok = g.peers.get(&addr).is_some_and(|p| {
+                                cands
+                                    .iter()
+                                    .any(|n| g.peer_group.get(n).is_some_and(|pg| consistent_with(p, pg, &g)))
+                            });
+                            Term::tag(
+                                "accept-amb",
+                                vec![
+                                    Term::nat(sid as u64),
+                                    Term::list(cands.iter().map(|n| Term::atom(n.clone())).collect()),
+                                    Term::boolean(ok),
+                                ],
+                            )
+                        } else {
+                            let cfg = match g.peers.get(&addr) {
+                                Some(p) => peer_cfg_t(p, &g),
+                                None => Term::atom("no-peer"),
+                            };
+                            Term::tag("accept", vec![Term::nat(sid as u64), sess_t(&session), cfg])
+                        };
+                        drop(g);
+                        live.push(Some(Live { session, client }));
+                        res
+                    }
+                }
+            }
+            "disc" => {
+                let [s] = o.tagged("disc")? else { return None };
+                let sid = s.as_u64()? as usize;
+                match live.get_mut(sid).and_then(|x| x.take()) {
+                    None => Term::atom("no-session"),
+                    Some(Live { session, mut client }) => {
+                        // The real session task: OPEN exchange start, then the remote end goes away.
+                        let run = session.run(global.clone(), active_tx.clone());
+                        let script = async move {
+                            let first = read_first_message(&mut client).await;
+                            drop(client);
+                            first
+                        };
+                        let (done, first) = tokio::join!(tokio::time::timeout(Duration::from_secs(10), run), script);
+                        if done.is_err() {
+                            Term::tag("disc-timeout", vec![first])
+                        } else {
+                            Term::tag("disc", vec![first])
+                        }
+                    }
+                }
+            }
+            h @ ("enable" | "disable" | "delete" | "shutdown" | "reset") => {
+                let [a] = o.tagged(h)? else { return None };
+                let address = ip_of(a)?.to_string();
+                let ok = match h {
+                    "enable" => svc
+                        .enable_peer(tonic::Request::new(api::EnablePeerRequest { address }))
+                        .await
+                        .is_ok(),
+                    "disable" => svc
+                        .disable_peer(tonic::Request::new(api::DisablePeerRequest {
+                            address,
+                            ..Default::default()
+                        }))
+                        .await
+                        .is_ok(),
+                    "delete" => svc
+                        .delete_peer(tonic::Request::new(api::DeletePeerRequest {
+                            address,
+                            ..Default::default()
+                        }))
+                        .await
+                        .is_ok(),
+                    "shutdown" => svc
+                        .shutdown_peer(tonic::Request::new(api::ShutdownPeerRequest {
+                            address,
+                            ..Default::default()
+                        }))
+                        .await
+                        .is_ok(),
+                    _ => svc
+                        .reset_peer(tonic::Request::new(api::ResetPeerRequest {
+                            address,
+                            soft: false,
+                            ..Default::default()
+                        }))
+                        .await
+                        .is_ok(),
+                };
+                Term::tag("api", vec![Term::atom(if ok { "ok" } else { "notfound" })])
+            }
+            _ => return None,
+        };
+        // after an ambiguous accept the state depends on hash order: not reported
+        let snap = if aborted { Term::list(vec![]) } else { snapshot(&*global.read().await) };
+        steps.push(Term::list(vec![res, snap]));
+    }
+    Some(Term::tag("hist", vec![setup, Term::list(steps)]).to_string())
+}
+
+// ------------------------------------------------------------------ entry
+
+fn run_case(line: &str) -> String {
+    let Some(t) = Term::parse(line) else {
+        return "(bad-case)".into();
+    };
+    let rt = tokio::runtime::Builder::new_current_thread()
+        .enable_all()
+        .build()
+        .expect("runtime");
+    let r = match t.head() {
+        Some("neg") => match t.tagged("neg") {
+            Some([l, r, sm]) => run_neg(&rt, l, r, sm),
+            _ => None,
+        },
+        Some("contains") => match t.tagged("contains") {
+            Some([n, a]) => run_contains(n, a),
+            _ => None,
+        },
+        Some("hist") => match t.tagged("hist") {
+            Some([g, gs, ps, ops]) => rt.block_on(run_hist(g, gs, ps, ops)),
+            _ => None,
+        },
+        _ => None,
+    };
+    drop(rt);
+    r.unwrap_or_else(|| "(bad-case)".into())
+}
+
+#[test]
+fn verif_main() {
+    let (Ok(prop), Ok(inp), Ok(out)) = (
+        std::env::var("VERIF_PROP"),
+        std::env::var("VERIF_IN"),
+        std::env::var("VERIF_OUT"),
+    ) else {
+        return; // not invoked by /verif/check
+    };
+    if prop != "C16" {
+        return;
+    }
+    // keep panics of the code under test out of the log
+    std::panic::set_hook(Box::new(|_| {}));
+    sexp::run_lines(&inp, &out, |l| {
+        let l = l.to_string();
+        std::panic::catch_unwind(std::panic::AssertUnwindSafe(move || run_case(&l)))
+            .unwrap_or_else(|_| "(panic)".into())
+    });
+}
